@@ -121,6 +121,18 @@ def direct_cases(rng):
             add("TTM @ TT", "order mismatch", True, lambda A=A, N=N: A @ T(rng, N[:-1]))
             add("TTM @ TTM", "order mismatch", True, lambda A=A, N=N: A @ TM(rng, N[:-1], N[:-1]))
             add("TTM + TTM", "order mismatch", True, lambda A=A, N=N: A + TM(rng, N[:-1], N[:-1]))
+        # orders that differ while the sizes happen to broadcast: an operator whose modes are all n against a one-mode right-hand side of size n
+        for n_ in (2, 3):
+            for dd in (2, 3):
+                add("amen_solve", "right-hand side with fewer modes (all sizes equal, broadcastable)", True,
+                    lambda n_=n_, dd=dd: torchtt.solvers.amen_solve(torchtt.eye([n_] * dd, dtype=torch.float64), torchtt.ones([n_], dtype=torch.float64), nswp=2, verbose=False, use_cpp=False))
+                add("amen_solve", "operator with fewer modes than the right-hand side (broadcastable)", True,
+                    lambda n_=n_, dd=dd: torchtt.solvers.amen_solve(torchtt.eye([n_], dtype=torch.float64), torchtt.ones([n_] * dd, dtype=torch.float64), nswp=2, verbose=False, use_cpp=False))
+        # qtt_to_tens with an original_shape of another element count: a proper prefix of the folding (rank one at the cut), too many entries, a non-divisor
+        for shp in ([4, 2], [8], [2, 4], [2, 2, 2], [16, 2], [3, 5], [4, 4, 2]):
+            add("qtt_to_tens", "original_shape %s for a QTT of 16 entries" % (shp,), False, lambda shp=shp: torchtt.ones([2, 2, 2, 2], dtype=torch.float64).qtt_to_tens(shp))
+            add("qtt_to_tens", "original_shape %s for a rank-one QTT built by kron" % (shp,), False,
+                lambda shp=shp: (torchtt.TT(torch.tensor([1.0, 2.0], dtype=torch.float64)) ** torchtt.TT(torch.tensor([1.0, -1.0], dtype=torch.float64)) ** torchtt.ones([2, 2], dtype=torch.float64)).qtt_to_tens(shp))
         add("fast_matvec", "operand is not a TT", True, lambda A=A: A.fast_matvec(torch.ones(2)))
         add("amen_solve", "A is a TT tensor", True, lambda x=x: torchtt.solvers.amen_solve(x, x, nswp=2, verbose=False, use_cpp=False))
         add("amen_solve", "b is a TT matrix", True, lambda A=A: torchtt.solvers.amen_solve(A, A, nswp=2, verbose=False, use_cpp=False))
